@@ -15,7 +15,7 @@ from typing import Dict, List, Optional, Set, Tuple
 from ..core import AnalysisError, Func, Repo, dotted, norm, parents
 from ..cfg import CFG
 from ..report import Check
-from ..util import call_name, calls_in, values_of
+from ..util import call_name, calls_in, values_of, excluded_by, eval3
 
 DOC = 'pydoctor.model.Documentable'
 MV = 'pydoctor.astbuilder.ModuleVistor'
@@ -102,12 +102,17 @@ def run(repo: Repo, chk: Check, thorough: bool = False) -> None:
         chk.ob('R07.2', f'{MV}._handleReExport :: only names listed in the current __all__ move', g1,
                f'dominated by `{ps[3]} in {ps[1]}`' if g1 else 'the move is not guarded by membership of the exported name in the current module\'s __all__',
                repo.loc(hr.mod, c))
-        g2 = False
-        for t, pol in tests:
-            if pol and isinstance(t, ast.BoolOp) and isinstance(t.op, ast.Or):
-                txt = [norm(v) for v in t.values]
-                if any('.all is None' in x for x in txt) and any(' not in ' in x and '.all' in x and ps[2] in x for x in txt):
-                    g2 = True
+        # scenario "the origin module has an __all__ and lists the name": the move must be unreachable in it, however the guard is spelled
+        # (`if all is None or name not in all: move` / `if all is not None and name in all: return`)
+        def origin_exports(e: ast.AST) -> Optional[bool]:
+            if isinstance(e, ast.Compare) and len(e.ops) == 1:
+                l, r = norm(e.left), norm(e.comparators[0])
+                if isinstance(e.ops[0], ast.Is) and l.endswith('.all') and r == 'None':
+                    return False
+                if isinstance(e.ops[0], ast.In) and l == ps[2] and r.endswith('.all'):
+                    return True
+            return None
+        g2 = excluded_by(cfgh.dominating_tests(cfgh.stmt_of(c), raw=True), origin_exports)
         chk.ob('R07.2', f'{MV}._handleReExport :: not moved when the origin exports it itself', g2,
                'dominated by `origin.all is None or origin_name not in origin.all`' if g2 else
                'an object the defining module lists in its own __all__ would be moved away from it', repo.loc(hr.mod, c))
@@ -145,13 +150,40 @@ def run(repo: Repo, chk: Check, thorough: bool = False) -> None:
         f = repo.func(q)
         cf = CFG(f)
         for c in calls_in(f, lambda c: call_name(c) == '_handleReExport'):
-            # when the move happened the local alias must not be (re)written for that name
+            # when the move happened the local alias must not be (re)written for that name: in the scenario "this call returned True" every alias store
+            # that the call can reach is excluded by its dominating facts (`if moved is True: continue` or `if moved is not True: alias = ...`)
+            resv = {t.id for n in f.walk() if isinstance(n, ast.Assign) and n.value is c for t in n.targets if isinstance(t, ast.Name)}
+
+            # operands evaluated before the call in the same `and` were true (short circuit), in the same `or` false
+            before_true = set()
+            before_false = set()
+            x_ = c
+            for p_ in parents(c):
+                if isinstance(p_, ast.BoolOp):
+                    idx = next((i for i, v in enumerate(p_.values) if v is x_), None)
+                    if idx is not None:
+                        (before_true if isinstance(p_.op, ast.And) else before_false).update(id(v) for v in p_.values[:idx])
+                if isinstance(p_, ast.stmt):
+                    break
+                x_ = p_
+
+            def moved(e: ast.AST) -> Optional[bool]:
+                if id(e) in before_true:
+                    return True
+                if id(e) in before_false:
+                    return False
+                if e is c or (isinstance(e, ast.Name) and e.id in resv):
+                    return True
+                if isinstance(e, ast.Compare) and len(e.ops) == 1 and (e.left is c or (isinstance(e.left, ast.Name) and e.left.id in resv)) and \
+                        isinstance(e.comparators[0], ast.Constant) and e.comparators[0].value is True and isinstance(e.ops[0], (ast.Is, ast.Eq)):
+                    return True
+                return None
             al = [n for n in f.walk() if isinstance(n, ast.Assign) and any(isinstance(t, ast.Subscript) and '_localNameToFullName' in norm(t.value) for t in n.targets)]
-            skip = any(isinstance(p, ast.If) and 'is True' in norm(p.test) and any(isinstance(s, ast.Continue) for s in p.body)
-                       for p in [getattr(c, '_parent', None), getattr(getattr(c, '_parent', None), '_parent', None),
-                                 getattr(getattr(getattr(c, '_parent', None), '_parent', None), '_parent', None)] if p is not None)
+            after = cf.reachable(cf.stmt_of(c), no_exc=True)
+            al_after = [n for n in al if id(n) in after and n is not cf.stmt_of(c)]
+            skip = all(excluded_by(cf.dominating_tests(n, raw=True), moved) for n in al_after)
             chk.ob('R07.2', f'{q} :: a moved name gets no import alias', skip and bool(al),
-                   'continue after a successful re-export (the object itself is now a member)' if skip else
+                   'every alias store the call reaches is excluded when the re-export succeeded (the object itself is now a member)' if skip else
                    'after the move the name is also recorded as an alias to the old location', repo.loc(f.mod, c))
     # star import: the names come from the origin module's members AND from its own imports / the aliases reparent() left there, so the
     # alias recorded in the importing module must be the origin module's expansion of the name, not `<origin>.<name>` glued together
